@@ -99,7 +99,7 @@ fn main() {
                 "arg" => { b.arg(payload(arg, i)); }
                 "args" => { b.args([payload("a2", i), payload("a3", i)]); }
                 "default" => { b.default(arg == "true"); }
-                "workdir" => { b.working_directory(if arg == "app" { WorkingDirectory::App } else { WorkingDirectory::Directory(PathBuf::from(payload(arg, i))) }); }
+                "workdir" => { b.working_directory(if arg == "app" { WorkingDirectory::App } else if arg == "dot" { WorkingDirectory::Directory(PathBuf::from(".")) } else { WorkingDirectory::Directory(PathBuf::from(payload(arg, i))) }); }
                 o => panic!("op {o}"),
             }
         }
@@ -111,7 +111,7 @@ fn main() {
         let path = out.path();
         write_toml_file(&launch, &path).expect("write launch");
         let d = &v["doc"];
-        let doc = json!({"type": "web", "command": cmd, "args": d["args"].as_array().unwrap().iter().map(|a| payload(a.as_str().unwrap(), i)).collect::<Vec<_>>(), "default": d["default"], "working-dir": if d["workdir"] == "app" { json!("app") } else { json!(payload(d["workdir"].as_str().unwrap(), i)) }});
+        let doc = json!({"type": "web", "command": cmd, "args": d["args"].as_array().unwrap().iter().map(|a| payload(a.as_str().unwrap(), i)).collect::<Vec<_>>(), "default": d["default"], "working-dir": if d["workdir"] == "app" { json!("app") } else if d["workdir"] == "dot" { json!(".") } else { json!(payload(d["workdir"].as_str().unwrap(), i)) }});
         out.expect(&path, "launch", json!({"processes": [doc], "labels": [], "slices": []}), v["calls"].clone());
         // read back with libcnb
         match read_toml_file::<Launch>(&path) {
